@@ -338,30 +338,57 @@ func runBatch(run *sim.Run, batch int) {
 			}
 			run.Count("requests-already-resolved-by-others-when-the-event-arrives", nEarly)
 		}
+		quiesce := func(base int) bool {
+			// quiescence: all goroutines spawned by the handlers are gone. If nothing changes for a long
+			// time while goroutines remain, they are blocked: go on and let the report count decide.
+			deadline := time.Now().Add(300 * time.Second)
+			lastN, lastChange := runtime.NumGoroutine(), time.Now()
+			for runtime.NumGoroutine() > base {
+				if n := runtime.NumGoroutine(); n != lastN {
+					lastN, lastChange = n, time.Now()
+				}
+				if time.Since(lastChange) > 20*time.Second {
+					run.Count("goroutines-blocked-at-quiescence", lastN-base)
+					break
+				}
+				if time.Now().After(deadline) {
+					run.Inconclusive(fmt.Sprintf("batch %d: %d goroutines still running after 300s", batch, runtime.NumGoroutine()-base))
+					run.Count("watchdog-fired", 1)
+					return false
+				}
+				time.Sleep(2 * time.Millisecond)
+			}
+			return true
+		}
+		// "restart": a few requests were already pending when the daemon started. It handles them from the pending list
+		// and must then ignore their tx events, which it may still receive (it subscribes before it asks for the list)
 		base := runtime.NumGoroutine()
+		nRestart := 0
+		var fromList []uint64
+		for _, r := range reqs {
+			if r.hasMe && rng.Chance(1, 8) {
+				yoda.VerifMarkPending(c, oracletypes.RequestID(r.id)) // all marks first: start-up fills the list before any handler runs
+				fromList = append(fromList, r.id)
+			}
+		}
+		for _, id := range fromList {
+			go yoda.VerifHandleRequest(c, l, oracletypes.RequestID(id))
+			nRestart++
+		}
+		if nRestart > 0 {
+			if !quiesce(base) {
+				return false
+			}
+			run.Count("requests-handled-from-the-pending-list-before-their-event-arrives", nRestart)
+		}
+		base = runtime.NumGoroutine()
 		// fire all tx events concurrently, as the event loop does
 		order := rng.Perm(len(reqs))
 		for _, i := range order {
 			go yoda.VerifHandleTransaction(c, l, reqs[i].txres)
 		}
-		// quiescence: all goroutines spawned by the handlers are gone. If nothing changes for a long
-		// time while goroutines remain, they are blocked: go on and let the report count decide.
-		deadline := time.Now().Add(300 * time.Second)
-		lastN, lastChange := runtime.NumGoroutine(), time.Now()
-		for runtime.NumGoroutine() > base {
-			if n := runtime.NumGoroutine(); n != lastN {
-				lastN, lastChange = n, time.Now()
-			}
-			if time.Since(lastChange) > 20*time.Second {
-				run.Count("goroutines-blocked-at-quiescence", lastN-base)
-				break
-			}
-			if time.Now().After(deadline) {
-				run.Inconclusive(fmt.Sprintf("batch %d: %d goroutines still running after 300s", batch, runtime.NumGoroutine()-base))
-				run.Count("watchdog-fired", 1)
-				return false
-			}
-			time.Sleep(2 * time.Millisecond)
+		if !quiesce(base) {
+			return false
 		}
 		// drain
 		got := map[uint64][]*oracletypes.MsgReportData{}
@@ -561,7 +588,7 @@ func main() {
 	}
 	for _, cn := range []string{"reports-checked", "raw:success", "raw:nonzero-exit", "raw:executor-error-255", "raw:fetch-failed-255",
 		"raw:executable-shorter-than-32-bytes", "requests-not-selecting-me-skipped", "rpc:transient-error", "rpc:data-nonzero-code", "rpc:data-persistent-error",
-		"reports-with-10+-raw-requests", "reports-accepted-by-chain", "data-sources-edited-while-the-daemon-runs", "requests-already-resolved-by-others-when-the-event-arrives"} {
+		"reports-with-10+-raw-requests", "reports-accepted-by-chain", "data-sources-edited-while-the-daemon-runs", "requests-already-resolved-by-others-when-the-event-arrives", "requests-handled-from-the-pending-list-before-their-event-arrives"} {
 		run.Require(cn, 1)
 	}
 	run.Finish()
